@@ -35,9 +35,10 @@ TRUSTED_BASE = ["Coq 8.16.1 kernel (coqc), vm_compute only",
                 "ocaml/prelude.ml + ocaml/c18_driver.ml, harness/h_sess.cpp + sess_harness.hpp + vsock.hpp + vclock.cpp, vlib"]
 ASSUMPTIONS = ["always_seqnum_assign = false (with the option on fix8 renumbers what it resends and stores it again; such "
                "histories are tied model = implementation but not judged by c18_ok)",
-               "the stored messages are what send_process stored (no batch sends: F21 stores the empty string, C17)",
+               "the stored messages are what send_process stored (single sends and batches: since the repair d862447 the "
+               "last message of a batch is stored with its own bytes, so batches are part of the histories)",
                "sequence numbers stay far below 2^32"]
-RULE = ("histories: logon, k <= 8 sends mixing application and admin messages (so that the store has holes; file, memory and "
+RULE = ("histories: logon, k <= 8 sends (single messages and batches) mixing application and admin messages (so that the store has holes; file, memory and "
         "no persister; initiator and acceptor; sometimes a restart on the file persister), then a ResendRequest [B,E], a new "
         "message, sometimes a second request and another message; 3 of 7 requests arrive in a state other than continuous: with "
         "their own MsgSeqNum ahead of the expected one (our ResendRequest goes first), while a TestRequest of ours is pending "
@@ -82,7 +83,8 @@ def run_impl(built, cases, tier):
 
 # ------------------------------------------------------------------------------------ histories
 def history(rng, role, persist, pattern, reqs, asa=0, restart_at=None, step_ns=None):
-    """pattern: string over a (application message), h (heartbeat), t (test request), r (reject);
+    """pattern: string over a (application message), h (heartbeat), t (test request), r (reject),
+    B (a batch of 2..3 messages, application and heartbeat mixed: 2..3 numbers, some of them stored);
     reqs: list of (B, E) -- each followed by a new application message."""
     h = S.Hist(rng, role, persist, asa=asa)
     h.logon_in()
@@ -96,6 +98,12 @@ def history(rng, role, persist, pattern, reqs, asa=0, restart_at=None, step_ns=N
             h.send(S.spec(t, S.app_fields(rng, t, h.now)))
         elif c == "h":
             h.send(S.spec("0"))
+        elif c == "B":
+            sps = []
+            for _ in range(rng.randint(2, 3)):
+                t = rng.choice(["D", "D", "F", "0"])
+                sps.append(S.spec(t, S.app_fields(rng, t, h.now)) if t != "0" else S.spec("0"))
+            h.batch(sps)
         elif c == "t":
             h.send(S.spec("1", [(112, S.word(rng))]))
         else:
@@ -165,10 +173,10 @@ def gen_cases(rng, tier):
     n_rand = 1500 if thorough else 300
     for _ in range(n_rand):
         k = rng.randint(2, 8)
-        pat = "".join(rng.choice("aaahhtr") for _ in range(k))
+        pat = "".join(rng.choice("aaahhtrBB") for _ in range(k))
         per = rng.choice(["file", "file", "mem", "mem", "none"])
         role = rng.choice("IA")
-        last = 1 + k
+        last = 1 + k + 2 * pat.count("B")
         reqs = [rng.choice(edge_ranges(rng, last)) + (rng.choice(MODES),)]
         if rng.random() < 0.5:
             reqs.append((rng.randint(0, last + 4), rng.choice([0, 0, rng.randint(0, last + 6)]), rng.choice(MODES)))
